@@ -1,6 +1,6 @@
 From Coq Require Import Extraction ExtrOcamlBasic.
-From Mamba Require Import Invariants.Graph Invariants.DistRef Invariants.DistModel Invariants.ConnModel Invariants.GirthModel.
+From Mamba Require Import Invariants.Graph Invariants.DistRef Invariants.DistModel Invariants.ConnModel Invariants.GirthModel Invariants.CycleIPModel.
 Extraction Language OCaml.
 Extraction "model.ml" mkGraph dist_matrix ecc_ref diam_ref rad_ref comp_ref comps_ref
-  zgirth blocks_ref artic_ref cycles_ref icycles_ref ipaths_ref
-  distance_go eccentricity_go diameter_go radius_go connected_component_go connected_components_go girth_go.
+  zgirth blocks_ref artic_ref cycles_ref icycles_ref ipaths_ref icycles_bounded_ref ipaths_bounded_ref
+  distance_go eccentricity_go diameter_go radius_go connected_component_go connected_components_go girth_go number_of_induced_paths_go.
